@@ -96,18 +96,13 @@ def judge(v, o):
     if o['other']:
         return 'inconclusive', 'harness could not run the vector: %r' % (o['other'][:2],)
     base, flip = o['base'], o['flip']
-    unk = [d for d in base if d['class'] == 'other']
-    if unk:
-        return 'inconclusive', 'base output has a message of unknown class: %s' % unk[0]['msg']
-    if v['base'] == 'clean' and base:
-        return 'inconclusive', 'base rendering is expected to lint clean but reports: %s' % [d['msg'] for d in base][:3]
-    if v['base'] == 'diag' and not base:
-        return 'inconclusive', 'base rendering is expected to be reported but lints clean'
     bk = collections.Counter(dkey(d) for d in base)
     fk = collections.Counter(dkey(d) for d in flip)
-    if v['rel'] == 'same':
-        if bk == fk:
-            return 'ok', ''
+    # Two real outputs for texts that differ only in the letter case of occurrences of the listed name kinds:
+    # any difference is a violation, whatever the base looks like (the all-lower-case spelling is not
+    # privileged - a base that is reported only because of its spelling shows up here as soon as another
+    # spelling is accepted).
+    if v['rel'] == 'same' and bk != fk:
         only_b = sorted((bk - fk).elements())
         only_f = sorted((fk - bk).elements())
         what = []
@@ -118,6 +113,18 @@ def judge(v, o):
             if dkey(d) in only_f:
                 what.append('new %s:%d:%d [%s] %s' % (d['file'], d['line'], d['col'], d['kind'], d['msg']))
         return ('violation' if v['listed'] else 'note'), '; '.join(what[:4])
+    # The base does not look as the spec says although this spelling agrees with it: if every spelling of the
+    # group agrees, the template is broken for a reason unrelated to letter case -> inconclusive (decided per
+    # group by the caller: a group with a violation is never inconclusive).
+    unk = [d for d in base if d['class'] == 'other']
+    if unk:
+        return 'inconclusive', 'base output has a message of unknown class: %s' % unk[0]['msg']
+    if v['base'] == 'clean' and base:
+        return 'inconclusive', 'base rendering is expected to lint clean but reports: %s' % [d['msg'] for d in base][:3]
+    if v['base'] == 'diag' and not base:
+        return 'inconclusive', 'base rendering is expected to be reported but lints clean'
+    if v['rel'] == 'same':
+        return 'ok', ''
     # negative control: the flip must change the result
     if o['nflip'] == 0:
         return 'ok', ''
@@ -236,18 +243,21 @@ def run(ck, tier):
     viol = {}           # (sid, inst) -> (nflip, vector, out, text, count)
     notes = collections.Counter()
     incon = {}
+    viol_groups = set()
     note_ex = {}
     insts = {}
     for o in outs:
         v = allv[o['id']]
         evals += 1
         status, text = judge(v, o)
+        group = (v['sid'], o['inst'], v.get('name'), v['flavour'])
         if status == 'inconclusive':
-            k = (v['sid'], v.get('name'), v['flavour'], text)
-            if k not in incon:
-                incon[k] = '%s (%s %s %s): %s\n%s' % (v['sid'], v.get('name'), v['flavour'], flipped_roles(v), text,
-                                                      render_files(o.get('files')) if len(incon) < 3 else '')
+            if group not in incon:
+                incon[group] = '%s (%s %s %s): %s\n%s' % (v['sid'], v.get('name'), v['flavour'], flipped_roles(v), text,
+                                                          render_files(o.get('files')) if len(incon) < 3 else '')
             continue
+        if status == 'violation':
+            viol_groups.add(group)
         if o['nflip'] > 0:
             nontrivial += 1
             per_kind[v['kind']] += 1
@@ -268,8 +278,12 @@ def run(ck, tier):
             ck.sample({'sid': v['sid'], 'patterns': [v.get('p1'), v.get('p2'), v.get('pa')], 'rel': v['rel'],
                        'flipped': o['flipFiles'], 'base_diags': [d['msg'] for d in o['base']],
                        'flipped_diags': [d['msg'] for d in o['flip']]})
-    if incon:
+    # a group in which some spelling disagrees with the base is a violation, not an unusable template
+    incon = {g: t for g, t in incon.items() if g not in viol_groups}
+    if incon and not viol:
         raise Inconclusive('%d vector groups cannot be judged:\n%s' % (len(incon), '\n'.join(list(incon.values())[:40])))
+    for t in list(incon.values())[:10]:
+        ck.note('not judged (all spellings agree but the base is not as the spec expects): ' + t.split('\n')[0][:300])
     for (sid, inst, flavour), (nf, v, o, text, count) in sorted(viol.items()):
         site = 'names:' + sid + (':' + inst if inst else '')
         inst = o['inst']
